@@ -38,13 +38,19 @@ def _check_body(ctx, res) -> None:
 
     # ---- R17.2
     f = idx.need_func("rope.refactor.encapsulate_field._FindChangesForModule.get_changed_module")
-    cfg = CFG(f.node)
+    fnode = common.inlined(idx, f)  # the refusal may be a private step (`self._refuse_tuple_assignment(occurrence)`): read in place
+    cfg = CFG(fnode)
     def spells_setter(a) -> bool:
         """the appended text contains self.setter -- written in place, held in a local, or returned by a method of the class"""
         from .common import _subst_single_locals
-        a = _subst_single_locals(f.node, a)
+        a = _subst_single_locals(fnode, a)
         if any(is_self_attr(x, "setter") for x in ast.walk(a)):
             return True
+        # a local bound in several branches (what a helper with two returns becomes when it is read in place): any of its values
+        for nm in [x.id for x in ast.walk(a) if isinstance(x, ast.Name)]:
+            vals = [d.value for d in walk_local(fnode) if isinstance(d, ast.Assign) and any(isinstance(t, ast.Name) and t.id == nm for t in d.targets)]
+            if len(vals) > 1 and any(is_self_attr(x, "setter") for v in vals for x in ast.walk(v)):
+                return True
         for c in ast.walk(a):
             if isinstance(c, ast.Call) and is_self_attr(c.func) and f.cls is not None:
                 m = idx.find_method(f.cls.qualname, c.func.attr)
@@ -150,6 +156,25 @@ def _check_body(ctx, res) -> None:
             continue
         n6 += 1
         ok = any(column_valued(t) for t, pol in gs)
+        if not ok:
+            # the refusal written as a guard clause in front: `if global_ and <column> > 0: raise ...` -- a test of the column that every
+            # path to the return passes and whose yes-side raises
+            # the return stands on the flag's true side: paths that took the false edge of an earlier test of the same (never re-bound) flag are
+            # not paths to it
+            reb = any(isinstance(x, (ast.Assign, ast.AugAssign)) and any(isinstance(tg, ast.Name) and tg.id == gparam for tg in (x.targets if isinstance(x, ast.Assign) else [x.target]))
+                      for x in walk_local(gf.node))
+            infeasible = [] if (reb or not gparam) else [(tn2.id, b, lab) for tn2 in gcfg.nodes if tn2.kind == "test" and isinstance(tn2.ast, ast.Name) and tn2.ast.id == gparam
+                                                         for b, lab in gcfg.succ[tn2.id] if lab == "false"]
+            for r in gcfg.nodes:
+                if r.kind != "stmt" or not isinstance(r.ast, ast.Raise):
+                    continue
+                for tn in gcfg.nodes:
+                    if tn.kind != "test" or not column_valued(tn.ast):
+                        continue
+                    yes = [b for b, lab in gcfg.succ[tn.id] if lab == "true"]
+                    if yes and r.id in ({yes[0]} | gcfg.reachable(yes[0])) and nd.id not in gcfg.reachable(yes[0]) \
+                            and nd.id not in gcfg.reachable(gcfg.entry.id, avoid_nodes=[tn.id], avoid_edges=infeasible):
+                        ok = True
         res.add("R17.6", "_get_factory_method|global-at-column-0", ok, f"{gf.unit.rel}:{nd.lineno}",
                 "the unindented factory text is emitted only after a test on the textual column of the class line" if ok else
                 "the global factory (unindented `def` text inserted right after the class) is emitted without any test on the textual column of the "
